@@ -161,6 +161,27 @@ static void word_to_str_case(int colon, word w) {
   vh_post(&e);
 }
 
+/* mzp_copy into NULL / an exact / a longer target, mzp_set_ui */
+static void mzp_case(void) {
+  int lq = vh_randint(1, 40), lp = vh_randint(0, 2) == 0 ? -1 : lq + vh_pick((int[]){0, 1, 7, 30}, 4);
+  mzp_t *Q = mzp_init(lq), *P = lp < 0 ? NULL : mzp_init(lp);
+  for (int i = 0; i < lq; i++) Q->values[i] = vh_randint(i, lq - 1);
+  if (P) for (int i = 0; i < lp; i++) P->values[i] = 100000 + i;
+  vh_ev_t e;
+  vh_begin(&e, "mzp_copy");
+  vh_pa(&e, "Q", Q->values, lq);
+  vh_pi(&e, "lp", lp);
+  vh_pre(&e);
+  mzp_t *R = NULL;
+  if (VH_CALL(&e)) R = mzp_copy(P, Q);
+  VH_END(&e);
+  if (R) { vh_pa(&e, "R", R->values, R->length); vh_pi(&e, "same", P == NULL || R == P); }
+  if (R) { mzp_set_ui(R, 1); vh_pa(&e, "I", R->values, R->length); }
+  vh_post(&e);
+  if (R) mzp_free(R);
+  mzp_free(Q);
+}
+
 int fam_kernels(const vh_args_t *a) {
   long idx = 0;
   vh_nofork = 1; /* pure functions, tiny cases */
@@ -175,6 +196,7 @@ int fam_kernels(const vh_args_t *a) {
   for (int t = 0; t < 200; t++, idx++) if (VH_SHARD(a, idx)) { vh_case_seed(a, idx); swap_case(1, 0); }
   for (int t = 0; t < (a->tier ? 3000 : 600); t++, idx++) if (VH_SHARD(a, idx)) { vh_case_seed(a, idx); spread_case(); }
   for (int ia = 0; ia <= 64; ia++) for (int ib = 0; ib <= 64; ib++, idx++) if (VH_SHARD(a, idx)) { vh_case_seed(a, idx); lsb_case(ia, ib); }
+  for (int t = 0; t < 60; t++, idx++) if (VH_SHARD(a, idx)) { vh_case_seed(a, idx); mzp_case(); }
   for (int t = 0; t < 140; t++, idx++)
     if (VH_SHARD(a, idx)) { vh_case_seed(a, idx); word_to_str_case(t % 2, t < 128 ? (word)1 << (t / 2) : (t < 132 ? 0 : (t < 136 ? ~(word)0 : vh_rand()))); }
   return 0;
